@@ -6,6 +6,7 @@ package main
 
 import (
 	"fmt"
+	"os"
 	"strings"
 
 	"verifharness/vlib"
@@ -17,13 +18,19 @@ type gen struct {
 	maxDepth int
 	ids      []string
 	profile  int
-	theme    int // 0 none, themeVars, themeFootnotes: a structural dimension the document is built around
+	theme    int // 0 none, themeVars, themeFootnotes, themeRefs: a structural dimension the document is built around
+	refs     refPiece // themeRefs: the reference graphs of the document
 }
 
 const (
 	themeVars      = 1
 	themeFootnotes = 2
+	themeRefs      = 3 // reference graphs (refs.go)
 )
+
+// VERIF_C01_THEME=vars|footnotes|refs builds every document around that dimension (triage aid;
+// the registered stream does not set it)
+var forceTheme = map[string]int{"vars": themeVars, "footnotes": themeFootnotes, "refs": themeRefs}[os.Getenv("VERIF_C01_THEME")]
 
 var blockTags = []string{"div", "p", "section", "article", "blockquote", "h1", "h2", "h3", "pre", "center", "address", "figure", "details", "fieldset", "form", "nav", "header", "footer", "main"}
 var inlineTags = []string{"span", "a", "b", "i", "em", "strong", "q", "sup", "sub", "font", "label", "code", "small", "u", "bdo", "bdi", "abbr", "cite"}
@@ -976,6 +983,8 @@ func (g *gen) sheet(lo, hi int) Sheet {
 			s.Rules = append(s.Rules, g.varGraphRules()...)
 		case g.r.Chance(1, 40):
 			s.Rules = append(s.Rules, g.footnoteRules()...)
+		case g.r.Chance(1, 30):
+			s.Rules = append(s.Rules, g.counterStyleGraph().rules...)
 		}
 	}
 	return s
@@ -995,6 +1004,10 @@ func (g *gen) themeSheet() Sheet {
 		}
 	case themeFootnotes:
 		s.Rules = append(s.Rules, g.footnoteRules()...)
+	case themeRefs:
+		// @import statements are only honoured at the beginning of a sheet
+		s.Rules = append(append([]Rule{}, g.refs.imps...), s.Rules...)
+		s.Rules = append(s.Rules, g.refs.rules...)
 	}
 	for g.r.Chance(1, 2) {
 		s.Rules = append(s.Rules, g.rule(0))
@@ -1372,6 +1385,11 @@ func GenDoc(r *vlib.Rng) *Doc {
 		g.theme = themeVars
 	case k < 4:
 		g.theme = themeFootnotes
+	case k < 8:
+		g.theme = themeRefs
+	}
+	if forceTheme != 0 { // triage aid
+		g.theme = forceTheme
 	}
 	switch k := r.Intn(10); {
 	case k == 0: // deep nesting
@@ -1415,6 +1433,14 @@ func GenDoc(r *vlib.Rng) *Doc {
 		s := g.sheet(1, 7)
 		headKids = append(headKids, &Node{K: "style", Sheet: &s})
 	}
+	if g.theme == themeRefs {
+		g.refs = g.refPieces()
+		d.Files = g.refs.files
+		headKids = append(headKids, g.refs.head...)
+		if g.profile == 0 && g.budget > 30 {
+			g.budget = 30 // the reference graphs, not the size of the document, are the subject
+		}
+	}
 	if g.theme != 0 {
 		s := g.themeSheet()
 		headKids = append(headKids, &Node{K: "style", Sheet: &s})
@@ -1430,12 +1456,16 @@ func GenDoc(r *vlib.Rng) *Doc {
 		headKids = append(headKids, &Node{K: "el", Tag: t, Attrs: g.attrs(t)})
 	}
 
-	switch k := r.Intn(12); {
+	k := r.Intn(12)
+	if g.theme == themeRefs && k == 1 {
+		k = 2 // fragments only would drop the style sheet of the graphs
+	}
+	switch {
 	case k == 0: // no html/head/body wrappers at all: the parser adds them
 		d.Top = append(d.Top, headKids...)
-		d.Top = append(d.Top, g.kids("body", 1)...)
+		d.Top = append(d.Top, g.insertNodes(g.kids("body", 1), g.refs.body)...)
 	case k == 1: // only fragments
-		d.Top = append(d.Top, g.kids(vlib.Pick(r, []string{"body", "table", "tr", "select", "ul"}), 1)...)
+		d.Top = append(d.Top, g.insertNodes(g.kids(vlib.Pick(r, []string{"body", "table", "tr", "select", "ul"}), 1), g.refs.body)...)
 	default:
 		html := &Node{K: "el", Tag: "html", Attrs: g.attrs("html")}
 		if r.Chance(1, 6) {
@@ -1449,6 +1479,9 @@ func GenDoc(r *vlib.Rng) *Doc {
 			body.Style = g.someDecls()
 		}
 		body.Kids = g.kids("body", 1)
+		if g.theme == themeRefs {
+			body.Kids = g.insertNodes(body.Kids, g.refs.body)
+		}
 		if r.Chance(1, 15) {
 			html.Kids = append(html.Kids, &Node{K: "comment", Text: "between"})
 		}
